@@ -80,8 +80,9 @@ func r43PixelFormulaShape(c *core.Ctx) {
 	c.Saw(R, "span = "+S.String()+"; minX = "+E[0].String()+"; centreX = "+C[0].String())
 	c.Check(R, "pixel-is-square-span/"+g.Name, ext.Pos(), pEq(pAdd(E[3], E[1], -1), S) && len(S) == 1, "maxX - minX == maxY - minY == span (one term: "+S.String()+")",
 		fmt.Sprintf("pixel width %s and height %s differ or are not a single span term", S.String(), pAdd(E[3], E[1], -1).String()))
-	c.Check(R, "centre-is-half-a-span-from-min/"+g.Name, cen.Pos(), pEq(pAdd(C[0], E[0], -1), pMul(S, half())) && pEq(pAdd(C[1], E[1], -1), pMul(S, half())),
-		"centroid - min == span/2 on both axes", fmt.Sprintf("centroid - min is %s / %s, expected span/2 = %s: output coordinates are not pixel centres", pAdd(C[0], E[0], -1).String(), pAdd(C[1], E[1], -1).String(), pMul(S, half()).String()))
+	halfS := pSym("quo(" + S.String() + ",2)")
+	c.Check(R, "centre-is-half-a-span-from-min/"+g.Name, cen.Pos(), pEq(pAdd(C[0], E[0], -1), halfS) && pEq(pAdd(C[1], E[1], -1), halfS),
+		"centroid - min == span/2 (the truncated half added once, never multiplied) on both axes", fmt.Sprintf("centroid - min is %s / %s, expected the single term %s: output coordinates are not pixel centres (a truncated half-span that is multiplied amplifies the truncation error with the pixel index)", pAdd(C[0], E[0], -1).String(), pAdd(C[1], E[1], -1).String(), halfS.String()))
 	wantX := pAdd(pSym(rootE+".MinX()"), pMul(pSym(px), S), 1)
 	wantY := pAdd(pSym(rootE+".MinY()"), pMul(pSym(py), S), 1)
 	c.Check(R, "grid-anchored-at-root-min/"+g.Name, ext.Pos(), pEq(E[0], wantX) && pEq(E[1], wantY), "min == rootMin + index·span on both axes", fmt.Sprintf("pixel min corner is %s / %s, expected %s / %s: the grid does not start at the corner of the extent", E[0].String(), E[1].String(), wantX.String(), wantY.String()))
@@ -113,7 +114,7 @@ func r43PixelFormulaShape(c *core.Ctx) {
 				r, ok1 := fe.eval(resE)
 				sz, ok2 := fe.eval(sizeE)
 				if ok1 && ok2 {
-					okRes = pEq(pMul(r, sz), pSym("intExtent.XSpan()")) && len(sz) == 1 && strings.HasPrefix(sz.String(), "2^(")
+					okRes = pEq(r, pSym("quo("+pSym("intExtent.XSpan()").String()+","+sz.String()+")")) && len(sz) == 1 && strings.HasPrefix(sz.String(), "2^(")
 					detail = fmt.Sprintf("deepestRes = %s, deepestSize = %s", r.String(), sz.String())
 				} else {
 					detail = fe.err
@@ -145,7 +146,7 @@ func r43PixelFormulaShape(c *core.Ctx) {
 			}
 			pw := pSym("2^(" + pAdd(pSym("ix.deepestLevel"), pSym("l"), -1).String() + ")")
 			if xv != nil && yv != nil {
-				okAddr = pEq(pMul(xv, pw), pSym("deepestX")) && pEq(pMul(yv, pw), pSym("deepestY"))
+				okAddr = pEq(xv, pSym("quo("+pSym("deepestX").String()+","+pw.String()+")")) && pEq(yv, pSym("quo("+pSym("deepestY").String()+","+pw.String()+")"))
 				detail = fmt.Sprintf("x = %s, y = %s", xv.String(), yv.String())
 			}
 			return false
@@ -170,8 +171,9 @@ func r43PixelFormulaShape(c *core.Ctx) {
 		okP := false
 		detail := ""
 		if dx != nil && dy != nil {
-			okP = pEq(pMul(dx, pSym("ix.deepestRes")), pAdd(pSym("intPoint.X()"), pSym("ix.intExtent.MinX()"), -1)) &&
-				pEq(pMul(dy, pSym("ix.deepestRes")), pAdd(pSym("intPoint.Y()"), pSym("ix.intExtent.MinY()"), -1))
+			res := pSym("ix.deepestRes").String()
+			okP = pEq(dx, pSym("quo("+pAdd(pSym("intPoint.X()"), pSym("ix.intExtent.MinX()"), -1).String()+","+res+")")) &&
+				pEq(dy, pSym("quo("+pAdd(pSym("intPoint.Y()"), pSym("ix.intExtent.MinY()"), -1).String()+","+res+")"))
 			detail = fmt.Sprintf("deepestX = %s, deepestY = %s", dx.String(), dy.String())
 		}
 		c.Check(R, "address-is-offset-over-res/"+ip.Name, ip.Decl.Pos(), okP, "deepest address == (p - min) / deepestRes on both axes", "the deepest pixel address of a point is not (p - extent min) / deepestRes: "+detail)
